@@ -151,8 +151,11 @@ class RefCache:
         if ttl is None:
             it.expire, it.expire_alt = None, None
         else:
-            it.expire = self.reads[0] + ttl
-            it.expire_alt = (ttl, frozenset(r + ttl for r in self.reads))
+            # (a call that stores an expiry without reading the clock: the reference falls back to the last instant seen
+            # and leaves it to the comparison with the stored row to say what went wrong)
+            reads = self.reads or (self.now,)
+            it.expire = reads[0] + ttl
+            it.expire_alt = (ttl, frozenset(r + ttl for r in reads))
 
     def _remove(self, it):
         self.items.remove(it)
